@@ -325,6 +325,9 @@ def finish(res, level="proof", trusted=None, rule="", checker_cmd="", assumption
     """Write evidence, print KNOWN-FINDING / VIOLATION lines, return the exit code."""
     os.makedirs(os.path.join(VERIF, "evidence"), exist_ok=True)
     os.makedirs(os.path.join(VERIF, "replays"), exist_ok=True)
+    for f in os.listdir(os.path.join(VERIF, "replays")):
+        if f.startswith(res.prop + "-") and f.endswith(".json"):
+            os.remove(os.path.join(VERIF, "replays", f))
     nviol = 0
     lines = []
     for k in res.known:
